@@ -87,13 +87,14 @@ class Truth:
         bat_bytes = (nent * 4 + 511) // 512 * 512
         nphys = max([p for p in r["blocks"] if p is not None], default=-1) + 1
         stride = (bm * 512 + bs)
+        far = r.get("far", 0)              # C13: place the data area at a far file offset (512-aligned; sectors stay < 2^32)
         if r["bat_after"]:
-            data0 = hdr_off + 1024
+            data0 = max(hdr_off + 1024, far)
             bat_off = data0 + nphys * stride
             end = bat_off + bat_bytes
         else:
             bat_off = hdr_off + 1024
-            data0 = bat_off + bat_bytes
+            data0 = max(bat_off + bat_bytes, far)
             end = data0 + nphys * stride
         self.loc = []
         bat = []
